@@ -64,7 +64,8 @@ mutual
   def buildExpr (c : TCtx) (env : Env) (sel : Option String) : Expr → Pop → Nat × Pop
     | .field h a, p =>
       let r := buildExpr c env sel h p
-      r.2.newVal "V_AVL" (attrTy (fieldClass c sel (r.2.r820 r.1) (r.2.kind r.1)) a)
+      let row := fieldRow (fieldClass c sel (r.2.r820 r.1) (r.2.kind r.1)) a
+      r.2.newVal row.1 row.2
     | .index h i, p =>
       let r := buildExpr c env sel h p
       let ri := buildExpr c env sel i r.2
@@ -77,13 +78,13 @@ mutual
       let r2 := buildExpr c env sel rr r1.2
       r2.2.newVal "V_BIN" (binType op (r2.2.r820 r1.1))
     | .call k nsp n ps, p =>
-      let own := p.newVal (kindOf c env (.call k nsp n ps)) (typeOf c env sel (.call k nsp n .nil))
+      let own := p.newVal (kindOf c env sel (.call k nsp n ps)) (typeOf c env sel (.call k nsp n .nil))
       (own.1, buildParamsRev c env sel ps own.2)
     | .icall h n ps, p =>
       let r := buildExpr c env sel h p
       let own := r.2.newVal "V_TRV" (opTy (tyClass c (r.2.r820 r.1)) n)
       (own.1, buildParamsRev c env sel ps own.2)
-    | e, p => p.newVal (kindOf c env e) (typeOf c env sel e)
+    | e, p => p.newVal (kindOf c env sel e) (typeOf c env sel e)
   def buildParamsRev (c : TCtx) (env : Env) (sel : Option String) : Params → Pop → Pop
     | .nil, p => p
     | .cons _ e rest, p => (buildExpr c env sel e (buildParamsRev c env sel rest p)).2
